@@ -34,11 +34,38 @@ FAMILIES = {
     "nest_ifexp": lambda n: "x = 0\nRESULT = " + "(1 if x else " * n + "2" + ")" * n + "\n",
 }
 
+# a long left-nested operator chain placed in every kind of expression position
+_CH = lambda n: " + ".join(["1"] * n)
+CHAIN_AT = {
+    "if_test": lambda n: "RESULT = 0\nif %s:\n    RESULT = 1\n" % _CH(n),
+    "while_test": lambda n: "i = 0\nwhile i + %s < %d:\n    i += 1\nRESULT = i\n" % (_CH(n), n + 2),
+    "for_iter": lambda n: "for v in [%s]:\n    RESULT = v\n" % _CH(n),
+    "for_iter_break": lambda n: "for v in [%s, 0]:\n    RESULT = v\n    break\n" % _CH(n),
+    "return_value": lambda n: "def f():\n    return %s\nRESULT = f()\n" % _CH(n),
+    "call_arg": lambda n: "acc = []\nacc.append(%s)\nRESULT = acc[0]\n" % _CH(n),
+    "default_arg": lambda n: "def f(a=%s, *, k=%s):\n    return a + k\nRESULT = f()\n" % (_CH(n), _CH(n)),
+    "subscript_store": lambda n: "d = {}\nd[%s] = %s\nRESULT = sorted(d.items())\n" % (_CH(n), _CH(n)),
+    "aug_value": lambda n: "x = 0\nx += %s\nd = {'k': 0}\nd['k'] += %s\nRESULT = (x, d)\n" % (_CH(n), _CH(n)),
+    "fstring_field": lambda n: "RESULT = f'{%s}'\n" % _CH(n),
+    "lambda_body": lambda n: "RESULT = (lambda: %s)()\n" % _CH(n),
+    "comp_parts": lambda n: "RESULT = [%s for v in [%s] if %s]\n" % (_CH(n), _CH(n), _CH(n)),
+    "decorator_arg": lambda n: "def deco(v):\n    return lambda fn: (lambda: fn() + v)\n@deco(%s)\ndef f():\n    return 1\nRESULT = f()\n" % _CH(n),
+    "class_header": lambda n: "def base(v):\n    return object\nclass K(base(%s)):\n    attr = %s\nRESULT = K.attr\n" % (_CH(n), _CH(n)),
+    "walrus_value": lambda n: "RESULT = (w := %s) + w\n" % _CH(n),
+    "destructure_value": lambda n: "a, (b, *c) = %s, (%s, 3)\nRESULT = (a, b, c)\n" % (_CH(n), _CH(n)),
+    "attr_store_obj": lambda n: "class O:\n    pass\nos = [O()]\nos[%s - %d].x = %s\nRESULT = os[0].x\n" % (_CH(n), n, _CH(n)),
+    "import_then_chain": lambda n: "import math\nRESULT = math.floor(%s)\n" % _CH(n),
+    "global_store": lambda n: "def f():\n    global g\n    g = %s\nf()\nRESULT = g\n" % _CH(n),
+    "nonlocal_store": lambda n: "def f():\n    v = 0\n    def h():\n        nonlocal v\n        v = %s\n    h()\n    return v\nRESULT = f()\n" % _CH(n),
+}
+for _k, _f in CHAIN_AT.items():
+    FAMILIES["chain_at:" + _k] = _f
+
 NESTING = ("nest_if", "nest_for", "nest_while", "nest_mixed", "nest_def", "nest_lambda", "nest_comp",
            "nest_parens_tuple", "nest_ifexp", "binop_right")
 NEST_SCHEDULE = (5, 10, 20, 40, 60, 80, 95)
 # chains that the recursive stdlib unparser walks one frame (or more) per link
-CHAIN_LIKE = ("elif_chain", "binop_left", "calls", "attrs", "subscripts")
+CHAIN_LIKE = ("elif_chain", "binop_left", "calls", "attrs", "subscripts") + tuple("chain_at:" + k for k in CHAIN_AT)
 IF_STYLE_SENSITIVE = ("elif_chain", "nest_if", "nest_mixed")
 
 
